@@ -798,6 +798,14 @@ type Pool struct {
 	New   func() interface{}
 	real  sync.Pool
 	items []interface{}
+	owner *Sched // the controlled execution the pooled items belong to (a pool starts every execution empty)
+}
+
+func (p *Pool) enter(s *Sched) {
+	if p.owner != s {
+		p.owner = s
+		p.items = nil
+	}
 }
 
 // PoolPoison, when set, is applied to every object handed to Put during a controlled execution: both
@@ -818,6 +826,7 @@ func (p *Pool) Get() interface{} {
 	}
 	s.park(OpPoolGet, p, 0)
 	s.last.tick()
+	p.enter(s)
 	n := len(p.items)
 	k := n
 	if n > 0 {
@@ -843,6 +852,7 @@ func (p *Pool) Put(x interface{}) {
 	}
 	s.park(OpPoolPut, p, 0)
 	s.last.tick()
+	p.enter(s)
 	if PoolPoison != nil {
 		PoolPoison(x)
 	}
